@@ -7,6 +7,7 @@ import (
 	"net/netip"
 
 	"github.com/jech/storrent/config"
+	"github.com/jech/storrent/hash"
 	"github.com/jech/storrent/peer"
 	"github.com/jech/storrent/tracker"
 	"github.com/jech/storrent/webseed"
@@ -97,4 +98,36 @@ func H_C18_tracker_ports() {
 	if started {
 		vReach("fetch-started")
 	}
+}
+
+// H_C18_infoHashes: the torrents offered to INCOMING handshakes (infoHashes(false)) never include
+// a proxied torrent; the full list (used for DHT bookkeeping) has them all.
+func H_C18_infoHashes() {
+	h0 := hash.Hash([]byte{0, 1, 2, 3, 4, 5, 6, 7, 8, 9, 10, 11, 12, 13, 14, 15, 16, 17, 18, 19})
+	h1 := hash.Hash([]byte{1, 1, 2, 3, 4, 5, 6, 7, 8, 9, 10, 11, 12, 13, 14, 15, 16, 17, 18, 19})
+	t0 := VRegister(h0, "a", nil, 100)
+	t1 := VRegister(h1, "b", nil, 100)
+	p0, p1 := vBool("p0"), vBool("p1")
+	if p0 {
+		t0.proxy = "socks5://x"
+	}
+	if p1 {
+		t1.proxy = "socks5://x"
+	}
+	in := infoHashes(false)
+	all := infoHashes(true)
+	vReach("listed")
+	want := 0
+	if !p0 {
+		want++
+	}
+	if !p1 {
+		want++
+	}
+	vAssert(len(all) == 2 && len(in) == want, "incoming handshakes are offered exactly the unproxied torrents")
+	for _, hp := range in {
+		vAssert(vImp(hp.First.Equal(h0), !p0) && vImp(hp.First.Equal(h1), !p1), "a proxied torrent is never offered to an incoming connection")
+	}
+	del(h0)
+	del(h1)
 }
